@@ -163,7 +163,7 @@ func checkC08(e *Engine, r *Report) {
 			}
 		}
 	}
-	r.MinInstances("result/from update pairs", nPairs, 12)
+	r.MinInstances("result/from update pairs", nPairs, 6)
 
 	// field writers
 	takeFns := map[string]bool{}
@@ -534,7 +534,7 @@ func checkC08(e *Engine, r *Report) {
 				pathFns = append(pathFns, f)
 			}
 		}
-		r.MinInstances("functions on the allocation path", len(pathFns), 20)
+		r.MinInstances("functions on the allocation path", len(pathFns), 10)
 		banned := 0
 		for _, f := range pathFns {
 			AllInstrs(f, func(in ssa.Instruction) {
@@ -600,7 +600,7 @@ func checkC08(e *Engine, r *Report) {
 				}
 			})
 		}
-		r.MinInstances("comparators on the allocation path", nc, 4)
+		r.MinInstances("comparators on the allocation path", nc, 2)
 	}
 }
 
